@@ -31,6 +31,42 @@ CLAIMS = {
     "C17": ("write-effect classification by target provenance (reaching definitions) with a frozen, side-condition-checked triage table",
             "Sufficient condition for purity/repeatability/thread-safety: no shared location written and read in scope (E-R1/E-R3), no mutation of caller-owned objects (E-R2), no mutable defaults / shared parser instances / memoised mutable results (E-R4), over all 198 functions and ~70 write sites of Types.py, models/**, Parser.py, header.py, utils.py, lib.py and OFXClient.serialize. A correct hand-written cache would be reported and must then be triaged.",
             "3 C17"),
+    "C01": ("writer/reader agreement rules over the reconstructed schema + abstract-shape evaluation of the leaf predicates + taint rule for escaping",
+            "Partial - necessary structural conditions of the round trip only: tag tables and child order agree for all classes (S-R1/S-R4/S-R5, M1..M5), the end-tag-less writer omits end tags only for shapes the reader closes by itself (W-R2), element text is escaped with entities the reader decodes (L-R2/W-R3), converter pairing (T-R1), serialize() version/end-tag guards (Q-R6), no HTML-special tag names (W-R6), pretty-printer writes whitespace only (W-R7). Does not decide equality of values (decimal exponent, millisecond rounding, string content).",
+            "3 C01"),
+    "C02": ("regex syntax-tree analysis of the tokenizer (re._parser) + flag-pruned CFG of _start",
+            "Partial - regex clauses and the leaf/aggregate decision: tag alphabet, back-referenced optional end tag, non-greedy any-character CDATA content, text class and trimming, data unmodified, every element started once and a leaf closed exactly once (X-R1..X-R6) plus the nesting discipline P-R1..P-R4. Does not decide equivalence of renderings over the infinite input space.",
+            "3 C02"),
+    "C03": ("reaching-definition dataflow of the reducer + decode-table comparison with the property's own enumeration",
+            "Partial - placement and the decode tables the statement enumerates: value provenance and keying in the reducer (V-R1, M1, M2), document order of list members (V-R2), absent children None (V-R3), descriptor slots (V-R4), boolean table exactly Y/N (V-R5), single-pass six-entity decoder (V-R6), both decimal separators (V-R7), date field plumbing and sign of offset minutes (Z-R4, Z-R5). Does not decide the typed value in general.",
+            "3 C03"),
+    "C05": ("offset provenance (reaching definitions) in parse_header + codec table normalised through codecs.lookup",
+            "Partial - offset provenance and codec: the string whose match end is the seek offset is exactly what was read since header_start, single-byte decoded (H-R1); codec = codecs[charset] on every path and the table maps to latin-1/cp1252/utf-8 (H-R2); the v2 path slices the string it searched (H-R3). Does not decide which layouts the regexes tolerate on concrete bytes.",
+            "3 C05"),
+    "C06": ("parameter-use, keyword/child agreement against the schema, dispatch-table agreement, CFG guards and pipeline-shape rules on Client.py",
+            "Partial - composition clauses: no parameter dropped (Q-R1), constructor keywords carry the like-named values and name declared children (Q-R2), tuples/handlers/builders/message sets agree (Q-R3), CLIENTUID and FI decisions (Q-R4), fresh trnuid per wrapper (Q-R5), end-tag-less writer only below 200 and header for the effective version (Q-R6), the request pipeline only sorts/groups/flattens with order-preserving keys (Q-R7). Does not decide byte-level well-formedness beyond escaping.",
+            "3 C06"),
+    "C08": ("typestate analysis of TreeBuilder (CFG dominance of raising guards over the delegated end/close/start)",
+            "Whole mechanism: the closing tag is compared with the innermost open tag before every delegated end (P-R1), close() refuses open elements and parse returns only close() (P-R2), a start after the root closed raises (P-R3), tail text / data after an end tag raise and feed re-raises (P-R4). Says nothing about well-formed input.",
+            "3 C08"),
+    "C09": ("exact finite-language enumeration of regex groups from the regex syntax tree + CFG guards + sign-domain abstract interpretation",
+            "Partial - rejection clause, writer shape, offset sign: field languages equal the OFX ranges, anchoring, literal separators, failed match raises (Z-R1, Z-R1b); naive values refused on every write path (Z-R2, disjunctive); writer offset shape inside the reader grammar (Z-R3, L-R3); field-to-value plumbing (Z-R4); minutes take the sign of the hours (Z-R5). Does not decide which instant a text denotes in general, rounding, or the '-0.30' case.",
+            "3 C09"),
+    "C11": ("return-shape and dominance rules on the write handlers + taint rule element-text -> output",
+            "Partial - lexical clauses: fixed-point decimal writer behind a non-finite refusal (L-R1), escaping on the hand-written wire form (L-R2), Bool/Integer/DateTime/Time writer shapes (L-R3), naive refusal (Z-R2), length/membership re-checked on write and unregistered types rejected (T-R3, T-R5). Does not decide the digits of particular values.",
+            "3 C11"),
+    "C12": ("agreement of writer field table / regex groups (syntax tree) / constructor parameters / validators; CFG of the wrapping try",
+            "Partial: B-R1 field agreement, B-R2 every field validated inside the ValueError->OFXHeaderError try, B-R3 routing and error conversion, B-R4 validator parameters, B-R5 parse passes captures unmodified, B-R6 reader regex covers every token the writer can emit. Does not decide which tokens are valid beyond what the validators declare.",
+            "3 C12"),
+    "C15": ("CFG dominance and per-branch provenance rules on request_profile",
+            "Partial - write discipline only: validate before overwrite (K-R1), atomic replace with a per-writer-unique temp name (K-R2), cache key identifies the server - ORG, FID, URL separately (K-R3; URL is a known finding), ask with the date held (K-R4). Histories, crash points and interleavings as such are NOT decided: no static argument in reach bounds them.",
+            "3 C15"),
+    "C18": ("provenance of ChainMap layers, table agreement (DEFAULTS / argparse dests / CONFIGURABLE / reader and writer handlers), CFG of write_config",
+            "Partial - precedence structure and persistence tables: G-R1 layer order incl. OFX Home and FI-db/user-file order, G-R2 every key has a default, G-R6 absent flags do not outrank files, G-R3 reader/writer/persistable tables agree, G-R7 skip filter baseline, G-R4 nothing on a dry run and one default CLIENTUID, G-R5 '%' escaped. Does not decide list quoting for odd ids or multi-run histories beyond these clauses.",
+            "3 C18"),
+    "C19": ("request-table rules (option -> request kind / keyword -> like-named source) and guard rules on the account-info parsers",
+            "Partial - request tables and the ACTIVE filter: J-R1 each account option iterated once into the right request kind with like-named dates/flags, all built requests passed on, --all merges first, OFXClient parameters from like-named options; J-R2 every discovered id collected under svcstatus == 'ACTIVE', dispatcher keys/coverage, groupby fed sorted records. Does not decide the interplay of discovered and configured accounts for concrete values.",
+            "3 C19"),
     "C07": ("CFG dominance / handler-exit analysis of the reducer + chain and rename-path rules on every groom override",
             "Whole mechanism: the unknown-tag branch returns the accumulator it received and stores nothing (U-R1), sub-trees are converted only after a successful spec lookup (U-R2), vendor tags removed or skipped (U-R3, disjunctive), groom overrides chain to the base and _convert grooms before folding (U-R4), class-specific renames look at direct children only, including through helpers (U-R5).",
             "3 C07"),
